@@ -280,6 +280,10 @@ pub struct RunCfg {
     /// crash once all hashes to be stalled are stalled and another payment is in flight
     #[serde(default)]
     pub crash_when_all_stalled: bool,
+    /// crashes are biased into the window between answering the HTLCs and
+    /// recording the outcome (restart profile)
+    #[serde(default)]
+    pub crash_in_bookkeeping_window: bool,
     /// What runs inside the simulated process: "process" (real main()),
     /// "wait_payment", "pay" (PayPaymentProvider directly), "watcher" (BlockWatcher).
     #[serde(default = "default_mode")]
@@ -420,6 +424,7 @@ pub fn base_cfg(rng: &mut Rng, profile: &str) -> RunCfg {
         freeze_n: 0,
         freeze_soft: false,
         crash_when_all_stalled: false,
+        crash_in_bookkeeping_window: false,
         mode: "process".into(),
         f_stall: 0,
         f_long_downtime: 0,
